@@ -7,6 +7,8 @@
 //@typemap /&impl MultilinearExtension<E::ScalarField>/ => &MLE
 //@typemap /<E::G2 as VariableBaseMSM>::/ => G2::
 //@typemap /E::ScalarField::/ => Fr::
+//@typemap /\bF::/ => Fr::
+//@typemap /DenseMultilinearExtension::/ => DenseMLE::
 //@typemap /&\[E::ScalarField\]/ => &[Fr]
 //@struct file=poly-commit/src/multilinear_pc/data_structures.rs name=CommitterKey
 //@struct file=poly-commit/src/multilinear_pc/data_structures.rs name=Proof
@@ -106,3 +108,115 @@ impl MultilinearPC {
             }
 //@end
 }
+// ======================= setup helpers (multilinear_pc/mod.rs) =======================
+#[verifier::external_body] pub fn slice_to_vec_fr(s: &[Fr]) -> (r: Vec<Fr>) ensures r@ == s@ { unimplemented!() }       // poly.to_vec()
+#[verifier::external_body] pub fn usize_is_pow2(n: usize) -> (r: bool) ensures r == (exists|k: nat| k < 64 && n == pw(k)) { unimplemented!() }   // usize::is_power_of_two
+// ark_std::log2: the least r with x <= 2^r
+#[verifier::external_body] pub fn log2_ceil_u(x: usize) -> (r: u32) ensures r <= 64, x <= pw(r as nat), x > 1 ==> pw((r - 1) as nat) < x, x <= 1 ==> r == 0 { unimplemented!() }
+// `(lo..hi).map(f).collect()` into field elements
+#[verifier::external_body] pub fn range_map_fr<F: Fn(usize) -> Fr>(lo: usize, hi: usize, f: F) -> (r: Vec<Fr>)
+    requires forall|i: usize| lo <= i < hi ==> #[trigger] f.requires((i,))
+    ensures r@.len() == (if hi >= lo { hi - lo } else { 0 }), forall|i: int| 0 <= i < r@.len() ==> f.ensures(((lo + i) as usize,), #[trigger] r@[i]) { unimplemented!() }
+pub struct DenseMLE { pub num_vars: usize, pub evaluations: Vec<Fr> }
+impl DenseMLE { #[verifier::external_body] pub fn from_evaluations_vec(num_vars: usize, evaluations: Vec<Fr>) -> (r: DenseMLE) ensures r.num_vars == num_vars, r.evaluations == evaluations { unimplemented!() } }
+// bit i of x
+pub open spec fn bit(x: int, i: nat) -> int { (x / (pw(i) as int)) % 2 }
+// the i-th eq table: over all x in {0,1}^dim, eq(t_i, bit i of x)
+pub open spec fn eq_table_ok(t: Seq<Fr>, tbl: &DenseMLE, i: int, dim: nat) -> bool {
+    tbl.num_vars == dim && tbl.evaluations@.len() == pw(dim) && forall|x: int| 0 <= x < pw(dim) ==> (#[trigger] tbl.evaluations@[x])@ == eq1(t[i]@, bit(x, i as nat))
+}
+// eq(t, b) for a bit b:  t b + (1 - t)(1 - b)  =  2 t b - b - t + 1
+pub open spec fn eq1(t: FS, b: int) -> FS { if b == 1 { t } else { f_sub(f_one(), t) } }
+pub proof fn lemma_shr_bit(x: usize, i: usize) requires i < 63, x < pw(63) ensures ((x >> i) & 1usize) as int == bit(x as int, i as nat)
+{
+    vstd::arithmetic::power2::lemma_pow2_pos(i as nat);
+    vstd::bits::lemma_usize_shr_is_div(x, i);
+    assert(((x >> i) & 1usize) == (x >> i) % 2) by (bit_vector);
+}
+pub proof fn lemma_pw_shl(k: nat) requires k < 63 ensures (1usize << (k as usize)) == pw(k), pw(k) < pw(63), pw(63) == 0x8000_0000_0000_0000
+{
+    vstd::arithmetic::power2::lemma_pow2_strictly_increases(k, 63); vstd::arithmetic::power2::lemma2_to64(); vstd::arithmetic::power2::lemma2_to64_rest();
+    vstd::bits::lemma_usize_shl_is_mul(1usize, k as usize);
+}
+// 2 t b - b - t + 1 is eq(t, b) for a bit b  (b given as the field element 0 or 1)
+pub proof fn lemma_eq1(t: FS, xi: FS, b: int)
+    requires b == 0 || b == 1, xi == (if b == 1 { f_one() } else { f_zero() })
+    ensures f_add(f_sub(f_sub(f_add(f_mul(t, xi), f_mul(t, xi)), xi), t), f_one()) == eq1(t, b)
+{
+    if b == 1 {
+        ax_mul_one(t);
+        // (t + t) - 1 - t + 1 == t
+        let a = f_add(t, t);
+        ax_add_comm(f_sub(f_sub(a, f_one()), t), f_one());
+        ax_add_assoc(a, f_neg(f_one()), f_neg(t)); ax_add_comm(f_neg(f_one()), f_neg(t)); ax_add_assoc(a, f_neg(t), f_neg(f_one()));
+        ax_add_assoc(t, t, f_neg(t)); ax_add_neg(t); ax_add_zero(t);
+        assert(f_sub(f_sub(a, f_one()), t) == f_add(t, f_neg(f_one())));
+        ax_add_assoc(t, f_neg(f_one()), f_one()); ax_add_comm(f_neg(f_one()), f_one()); ax_add_neg(f_one()); ax_add_zero(t);
+        ax_add_comm(f_add(t, f_neg(f_one())), f_one());
+    } else {
+        lemma_mul_zero(t); ax_add_zero(f_zero()); lemma_neg_zero(); ax_add_zero(f_zero());
+        // (0 - 0) - t + 1 == 1 - t
+        ax_add_comm(f_zero(), f_neg(t)); ax_add_zero(f_neg(t));
+        ax_add_comm(f_neg(t), f_one());
+    }
+}
+pub proof fn lemma_shl_pad(x: usize, nv: nat, pad: nat) requires nv + pad < 64, x < pw(nv), pad < 63 ensures (x << (pad as usize)) as int == x * pw(pad), x * pw(pad) < pw(nv + pad)
+{
+    vstd::arithmetic::power2::lemma_pow2_adds(nv, pad);
+    vstd::arithmetic::power2::lemma_pow2_pos(pad);
+    assert(x * pw(pad) < pw(nv) * pw(pad)) by (nonlinear_arith) requires x < pw(nv), pw(pad) > 0;
+    vstd::arithmetic::power2::lemma_pow2_strictly_increases(nv + pad, 64); vstd::arithmetic::power2::lemma2_to64(); vstd::arithmetic::power2::lemma2_to64_rest();
+    assert(x * pw(pad) <= usize::MAX);
+    vstd::bits::lemma_usize_shl_is_mul(x, pad as usize);
+}
+pub proof fn lemma_log2_of_pow2(n: usize, k: nat, r: nat) requires k < 64, n == pw(k), r <= 64, n <= pw(r), n > 1 ==> pw((r - 1) as nat) < n, n <= 1 ==> r == 0
+    ensures r == k
+{
+    vstd::arithmetic::power2::lemma2_to64();
+    if r < k { vstd::arithmetic::power2::lemma_pow2_strictly_increases(r, k); }
+    if r > k { if n > 1 { if r - 1 > k { vstd::arithmetic::power2::lemma_pow2_strictly_increases(k, (r - 1) as nat); } } else { if k > 0 { vstd::arithmetic::power2::lemma_pow2_strictly_increases(0, k); } } }
+}
+//@fn id=multilinear_pc.eq_extension file=poly-commit/src/multilinear_pc/mod.rs scope=top name=eq_extension props=C09,C01
+fn eq_extension(t: &[Fr]) -> (r: Vec<DenseMLE>)
+    requires
+        t@.len() < 63,
+    ensures
+        r@.len() == t@.len(),
+        // the i-th table: over all x in {0,1}^dim, eq(t_i, bit i of x)
+        forall|i: int| 0 <= i < t@.len() ==> eq_table_ok(t@, &#[trigger] r@[i], i, t@.len()),   // name=multilinear_pc.eq_extension.table_of_eq_t_i_with_bit_i props=C09,C01
+//@body
+//@rw 1 /let mut result = Vec::new\(\);/ => let mut result: Vec<DenseMLE> = Vec::new();
+//@rw 1 /let mut poly = Vec::with_capacity\(1 << dim\);/ => let mut poly: Vec<Fr> = Vec::with_capacity(1 << dim);
+//@after /let dim = t\.len\(\);/
+    proof { lemma_pw_shl(dim as nat); }
+//@loop 1 kw=for name=it
+        invariant it.index@ <= dim, dim == t@.len(), dim < 63, result@.len() == it.index@, (1usize << dim) == pw(dim as nat), pw(dim as nat) < pw(63),
+            forall|k: int| 0 <= k < it.index@ ==> eq_table_ok(t@, &#[trigger] result@[k], k, dim as nat),
+//@loop 2 kw=for name=it2
+            invariant it2.index@ <= pw(dim as nat), poly@.len() == it2.index@, i < dim, dim == t@.len(), dim < 63, (1usize << dim) == pw(dim as nat), pw(dim as nat) < pw(63),
+                forall|y: int| 0 <= y < it2.index@ ==> (#[trigger] poly@[y])@ == eq1(t@[i as int]@, bit(y, i as nat)),
+//@loopstart 2
+            proof { lemma_shr_bit(x, i); }
+//@before /poly\.push\(/
+            proof { lemma_eq1(ti@, xi@, bit(x as int, i as nat)); }
+//@end
+//@fn id=multilinear_pc.remove_dummy_variable file=poly-commit/src/multilinear_pc/mod.rs scope=top name=remove_dummy_variable props=C09
+fn remove_dummy_variable(poly: &[Fr], pad: usize) -> (r: Vec<Fr>)
+    requires
+        pad < 63,
+        pad > 0 ==> (exists|k: nat| #![trigger pw(k)] k < 64 && poly@.len() == pw(k) && pad <= k),      // (not a power of two, or fewer than `pad` index bits: abort)
+    ensures
+        pad == 0 ==> r@ == poly@,
+        // keep the entries whose `pad` lowest index bits are zero
+        pad > 0 ==> (exists|k: nat| #![trigger pw(k)] k < 64 && poly@.len() == pw(k) && k >= pad && r@.len() == pw((k - pad) as nat)
+            && forall|x: int| 0 <= x < r@.len() ==> (#[trigger] r@[x]) == poly@[x * pw(pad as nat)]),   // name=multilinear_pc.remove_dummy_variable.keeps_every_2_to_the_pad_th_entry props=C09
+//@body
+//@rw 1 /return poly\.to_vec\(\);/ => return slice_to_vec_fr(poly);
+//@rw 1 /!poly\.len\(\)\.is_power_of_two\(\)/ => !usize_is_pow2(poly.len())
+//@rw 1 /let nv = ark_std::log2\(poly\.len\(\)\) as usize - pad;/ => let lg__ = log2_ceil_u(poly.len()); proof { lemma_log2_of_pow2(poly@.len() as usize, kk, lg__ as nat); } let nv = lg__ as usize - pad;
+//@rw 1 /let table: Vec<_> = \(0\.\.\(1 << nv\)\)\.map\(\|x\| poly\[x << pad\]\)\.collect\(\);/ => let table: Vec<Fr> = range_map_fr(0, 1 << nv, |x: usize| -> (o: Fr) requires x < pw(nv as nat), nv + pad == kk, kk < 64, poly@.len() == pw(kk), pad < 63 ensures o == poly@[x * pw(pad as nat)] { proof { lemma_shl_pad(x, nv as nat, pad as nat); } poly[x << pad] });
+//@before /let nv = ark_std::log2/
+    let ghost kk: nat = choose|k: nat| #![trigger pw(k)] k < 64 && poly@.len() == pw(k) && pad <= k;
+//@before /let table: Vec<_> =/
+    proof { lemma_pw_shl(nv as nat); }
+//@end
